@@ -120,9 +120,9 @@ def _dry(days, td, verbose):
         return rt.ok()
 
 
-def _inter(inter, reply, days):
+def _inter(inter, reply, days, envx=None):
     with rt.untraced():
-        rt.begin(('interactive', INTER[inter], REPLIES[reply], DAYS[days]))
+        rt.begin(('interactive', INTER[inter], REPLIES[reply], DAYS[days], envx))
         world = make_world()
         mode = INTER[inter]
         args = []
@@ -143,7 +143,15 @@ def _inter(inter, reply, days):
             tty = [0, 2]
         elif mode == 'tty-stdin-piped':
             tty = [1, 2]
-        m, res = scen.run_model(world, [{'snap': '/'}, C('empty', args, scen.env(), stdin=stdin, now=NOW, cwd='/v', tty=tty), {'snap': '/'}])
+        step = C('empty', args, scen.env(), stdin=stdin, now=NOW, cwd='/v', tty=tty)
+        names = []
+        if envx:
+            # undocumented environment variables the run consults, set to 0 / no: they must not stand for consent
+            names = scen.consulted_unknown_env(world, dict(step, stdin=list(stdin)))
+            if not names:
+                return rt.ok()
+            step = dict(step, env=dict(step['env'], **{n: envx for n in names}))
+        m, res = scen.run_model(world, [{'snap': '/'}, step, {'snap': '/'}])
         before, r, after = res
         asks = ('-i' in mode or (tty is True) or (tty and 0 in tty)) and '-f' not in mode
         if mode in ('-f then -i', '-fi', '--interactive'):
@@ -151,7 +159,7 @@ def _inter(inter, reply, days):
         elif mode == '-i then -f':
             asks = False
         consent = (not asks) or (rp is not None and rp[:1] in ('y', 'Y'))
-        label = 'mode=%s:reply=%r' % (mode, rp)
+        label = 'mode=%s:reply=%r' % (mode, rp) + (':env-%s=%s' % ('+'.join(names), envx) if envx else '')
         if not consent:
             if after != before:
                 return rt.fail('C14:purged-without-consent:' + label, repr(scen.delta(before, after)[0])[:300])
@@ -161,6 +169,14 @@ def _inter(inter, reply, days):
         if after == before:
             return rt.fail('C14:consent-given-nothing-purged:' + label, repr(r)[:300])
         return rt.ok()
+
+
+def w_inter_env(inter: int, reply: int, ev: int) -> str:
+    """
+    pre: 0 <= inter < NINTER and 0 <= reply < 4 and 0 <= ev < 2
+    post: _ == ''
+    """
+    return _inter(rt.sel(inter, NINTER), rt.of([3, 5, 9, 0], reply), 0, ['0', 'no'][rt.sel(ev, 2)])
 
 
 def w_dry(days: int, td: int, verbose: int) -> str:
@@ -189,6 +205,8 @@ def obligations(tier):
            bounds='reply: any str len<=3; interactive symbolic', stubs=['Input -> fixed reply']),
         CH('W_dry_run_vs_real', MOD, 'w_dry', timeout=300, engine='W', regime='selector', encodes=K.EMPTY_FUNCS, stubs=K.STUBS,
            bounds='4 DAYS x 3 --trash-dir x 3 -v over a trash with 5 entries in 4 dirs, orphans, lone info'),
+        CH('W_undocumented_environment_variables_set_to_0_or_no', MOD, 'w_inter_env', timeout=600, engine='W', regime='selector', encodes=K.EMPTY_FUNCS, stubs=K.STUBS + ['os.environ records the names looked up'],
+           bounds='every environment variable the run consults beyond the documented ones set to 0 / no; 11 interactive modes x replies n, empty, EOF, y'),
         CH('W_interactive', MOD, 'w_inter', timeout=600, engine='W', regime='selector', encodes=K.EMPTY_FUNCS, stubs=K.STUBS,
            bounds='11 interactive modes (-i, tty, both, tty with -f, none, terminal with stdout piped, terminal with stdin piped) x 13 replies incl. empty and EOF x 4 DAYS'),
     ]
